@@ -52,6 +52,21 @@ def bounded_cases(seed, thorough=False):
         if k == 'other_column_names':
             continue  # column names are part of the stored table; the property does not list key names as content -- reported only
         yield {'name': f"construction_route|{k}", 'ok': v == ref, 'detail': '' if v == ref else f"{v} != {ref}"}
+    # branch marks: booleans (the documented list form), 0/1, 'ads'/'des' split given as guessed marks
+    pb, lb = [0.1, 0.2, 0.3, 0.25, 0.15], [1.0, 2.0, 3.0, 2.8, 2.5]
+    marks = [0, 0, 0, 1, 1]
+    b_ids = {
+        'int_marks': pygaps.PointIsotherm(pressure=pb, loading=lb, branch=marks, **meta),
+        'bool_marks': pygaps.PointIsotherm(pressure=pb, loading=lb, branch=[bool(x) for x in marks], **meta),
+        'guessed_marks': pygaps.PointIsotherm(pressure=pb, loading=lb, **meta),
+        'bool_column': pygaps.PointIsotherm(isotherm_data=pandas.DataFrame({'pressure': pb, 'loading': lb, 'branch': [bool(x) for x in marks]}),
+                                            pressure_key='pressure', loading_key='loading', **meta),
+    }
+    for k, v in b_ids.items():
+        same = v.iso_id == b_ids['int_marks'].iso_id
+        yield {'name': f"construction_route|{k}", 'ok': same, 'detail': '' if same else f"{v.iso_id} != {b_ids['int_marks'].iso_id}"}
+    again = pgp.isotherm_from_json(b_ids['bool_marks'].to_json()).iso_id
+    yield {'name': 'json_round_trip_same_id|bool_marks', 'ok': again == b_ids['bool_marks'].iso_id, 'detail': f"{again} vs {b_ids['bool_marks'].iso_id}"}
     ints = pygaps.PointIsotherm(pressure=[1, 2, 3], loading=[1, 2, 3], **meta).iso_id
     flts = pygaps.PointIsotherm(pressure=[1., 2., 3.], loading=[1., 2., 3.], **meta).iso_id
     yield {'name': 'construction_route|integer_vs_float_literals', 'ok': ints == flts, 'detail': '' if ints == flts else f"{ints} != {flts}"}
